@@ -301,7 +301,7 @@ func (fv floatValue) ToString(b io.Writer, s px.FormatContext, g px.RDetect) {
 	case 'p':
 		f.ApplyStringFlags(b, floatGFormat(defaultFormatP, float64(fv)), false)
 	case 'e', 'E', 'f':
-		_, err := fmt.Fprintf(b, f.OrigFormat(), float64(fv))
+		_, err := fmt.Fprintf(b, goFormat(f), float64(fv))
 		if err != nil {
 			panic(err)
 		}
@@ -321,7 +321,7 @@ func (fv floatValue) ToString(b io.Writer, s px.FormatContext, g px.RDetect) {
 }
 
 func floatGFormat(f px.Format, value float64) string {
-	str := fmt.Sprintf(f.WithoutWidth().OrigFormat(), value)
+	str := fmt.Sprintf(goFormat(f.WithoutWidth()), value)
 	sc := byte('e')
 	if f.FormatChar() == 'G' {
 		sc = 'E'
@@ -348,7 +348,7 @@ func floatGFormat(f px.Format, value float64) string {
 			missing = prc - totLen
 			if missing == 0 {
 				// Impossible to add a fraction part. Force scientific notation
-				return fmt.Sprintf(f.ReplaceFormatChar(sc).OrigFormat(), value)
+				return fmt.Sprintf(goFormat(f.ReplaceFormatChar(sc)), value)
 			}
 		}
 	}
